@@ -149,6 +149,8 @@ hexval(const u8 *c, unsigned n)
 #define COMPATIBLE (P0 == P1 || P0 == 0 || P1 == 0)
 #define WIDTH      (RPFX == 0 || RPFX == 4 ? 1u : RPFX == 2 ? 2u : 4u)
 #define UMAX       (WIDTH == 1 ? 0xffull : WIDTH == 2 ? 0xffffull : 0xffffffffull)
+/* no raw NUL octet as a source character */
+#define NONUL      (!(USED(0) && g_c[0][0] == 0) && !(USED(1) && g_c[1][0] == 0))
 #define INRANGE(k) (!USED(k) || !NUMERIC(g_c[k]) || CVAL(g_c[k]) <= UMAX)
 
 #define PRE(X) \
@@ -156,7 +158,9 @@ hexval(const u8 *c, unsigned n)
 	X(g_pfx[0] <= 4 && g_pfx[1] <= 4 && g_blen[0] <= 7 && g_blen[1] <= 7) \
 	X(tok.kind == TSTRINGLIT && tok.lit != 0) \
 	X(g_targ.typewchar == (g_wsigned ? &typeint : &typeuint)) \
-	X(TOKOK(0) && (g_ntok < 2 || TOKOK(1)))
+	X(TOKOK(0) && (g_ntok < 2 || TOKOK(1))) \
+	/* the scanner (scan.c:stringlit) rejects a raw NUL octet inside a literal: token text is a C string */ \
+	X(NONUL)
 
 #define POST(X) \
 	/* p2: u8 and wide literals are not mixed */ \
@@ -176,7 +180,7 @@ hexval(const u8 *c, unsigned n)
 	X(IMP(INRANGE(0) && INRANGE(1), g_term_ok)) \
 	X(tok.kind == TEOF) \
 	/* everything written lies inside the allocation that was requested (fixed-buffer variants; otherwise CBMC's bounds checks) */ \
-	X(ALLOC_OK) \
+	X(IMP(NONUL, ALLOC_OK)) \
 	CANARY(X, !(g_ntok == 2 && P0 == 0 && P1 == 2 && g_c[0][0] == 'a' && g_blen[1] == 4))
 
 /* expected code units of character k for the resulting width, appended to e[] */
